@@ -2,20 +2,13 @@ package main
 
 import (
 	"fmt"
-	"os"
 
 	"github.com/ajitpratap0/GoSQLX/pkg/gosqlx"
-	"github.com/ajitpratap0/GoSQLX/pkg/sql/ast"
-	"verif/internal/astdump"
 )
 
 func main() {
-	for _, s := range os.Args[1:] {
+	for _, s := range []string{"", " ", "-- c", ";"} {
 		a, err := gosqlx.Parse(s)
-		if err != nil {
-			fmt.Printf("%q => ERR %v\n", s, err)
-			continue
-		}
-		fmt.Printf("%q => OK %d stmts\n  SQL: %s\n  FMT: %q\n  DUMP: %s\n", s, len(a.Statements), a.SQL(), a.Format(ast.FormatOptions{AddSemicolon: true, KeywordCase: ast.KeywordPreserve}), astdump.Dump(a.Statements))
+		fmt.Printf("%q -> %v err=%v valid=%v\n", s, a != nil, err, gosqlx.Validate(s))
 	}
 }
